@@ -40,7 +40,8 @@ NORM = 1.0 / 1024             # the ordinary sleep passed to run()/start()
 T_BLOCK = 6.0                 # a gated sleep released in "block" mode waits at most this long for its wake()
 SETTLE = 12.0                 # generous: the driver waits this long for the threads to reach the predicted status
 DRAIN = 30.0                  # last resort bound of the free run at the end of a gated schedule (no verdict depends on it)
-STUCK_DO = 20                 # a call that must return is given up on once the loop has entered do() this often since
+STUCK_DO = 20                 # a waiting stop()/wait() is no longer waited for once the loop has entered do() this
+                              # often since the call began (a heeded stop request allows one): counted, not timed
 GATE_NAMES = ("boot", "pre", "do", "sleep", "wkE", "wkX", "wtE", "thS")
 KINDS = {"start": None, "stopTW": (True, True), "stopTN": (True, False), "stopFW": (False, True),
          "stopFN": (False, False), "wake": None, "wait": None, "waitT": None}
@@ -760,8 +761,8 @@ def run_calls(calls):
 # TLC glue
 # ---------------------------------------------------------------------------------------------------
 ALLK = '{"start", "stopTW", "stopTN", "stopFW", "stopFN", "wake", "wait", "waitT"}'
-PLAIN = ["TypeOK", "BackoffLaw", "ClearOnSuccess", "BackoffState", "NoDoAfterStopReturned", "StopCanReturn", "DoneExactlyOnceIfFinal",
-         "NoRestartAfterFinalStop", "SurvivesAnythingSeen"]
+PLAIN = ["TypeOK", "BackoffLaw", "ClearOnSuccess", "BackoffState", "NoDoAfterStopReturned", "StopCanReturn",
+         "DoneExactlyOnceIfFinal", "NoRestartAfterFinalStop", "SurvivesAnythingSeen"]
 
 
 def runnable_cfg(ctx, name, *, ctls, kinds, outs, calls, maxdo, until, pre, fixed, tail):
@@ -1031,15 +1032,17 @@ def _run(ctx, pool):
     add(traces, cases, "backoff", conf=sorted(rng.sample(range(len(traces)), min(len(traces), 240 if quick else 2000))))
 
     # ---- gated schedules -------------------------------------------------------------------------
-    # name -> (generator arguments, the schedule starts on a started service, ... whose loop thread is held at "boot")
+    # name -> (generator arguments, the schedule starts on a started service, ... whose loop thread is held at "boot").
+    # The generator predicts with the stop() ordering probed in the working tree (a wrong guess shows up as a schedule
+    # that cannot be forced = non-conformance in the evidence, never as a verdict).
     K7 = '{"start", "stopTW", "stopTN", "stopFW", "stopFN", "wake", "wait"}'
     specs = [
         ("GA", dict(ctls="{1}", kinds='{"stopTW", "stopTN", "stopFW", "wake", "wait"}', outs='{"did", "exc", "sstopF"}',
-                    calls=2, maxdo=1, pre=True, maxtok=7 if quick else 8), True, False),
+                    calls=2, maxdo=1, pre=True, maxtok=7 if quick else 8, fixed=variant), True, False),
         ("GC", dict(ctls="{1}", kinds='{"start", "stopTW", "stopFW", "stopTN", "wait"}', outs='{"did"}',
-                    calls=3 if quick else 4, maxdo=1, pre=False, maxtok=8 if quick else 10), False, False),
+                    calls=3 if quick else 4, maxdo=1, pre=False, maxtok=8 if quick else 10, fixed=variant), False, False),
         ("GB", dict(ctls="{1, 2}", kinds='{"start", "stopTW", "stopTN", "stopFW", "wake", "wait"}', outs='{"did", "exc", "sstopF"}',
-                    calls=2, maxdo=2, pre=True, maxtok=7, simulate=120 if quick else None), True, False),
+                    calls=2, maxdo=2, pre=True, maxtok=7, simulate=120 if quick else None, fixed=variant), True, False),
         # start-up window of the loop thread: the first start() has returned, the loop thread has not executed a
         # statement of run(); every placement of <= 2 (3) calls of one controller before / after the driver lets it run
         ("GW", dict(ctls="{1}", kinds=K7, outs='{"did"}', calls=2 if quick else 3, maxdo=1, pre=True, preboot=True,
@@ -1050,6 +1053,10 @@ def _run(ctx, pool):
         ("GS", dict(ctls="{1, 2}", kinds=K7, outs='{"did"}', calls=2, maxdo=1, pre=False, maxtok=7 if quick else 8,
                     fixed=variant), False, False),
     ]
+    if not quick:
+        # both controllers act while the loop thread of a started service is still held before run()
+        specs.append(("GX", dict(ctls="{1, 2}", kinds='{"stopTW", "stopFW", "stopFN", "wake", "wait"}', outs='{"did"}', calls=2,
+                                 maxdo=1, pre=True, preboot=True, maxtok=7, fixed=variant), True, True))
     with ThreadPoolExecutor(max_workers=3) as gex:
         gfut = [(n, gex.submit(gen_schedules, ctx, n, **kw), pre, pb) for n, kw, pre, pb in specs]
         fam = [(n, fu.result(), pre, pb) for n, fu, pre, pb in gfut]
